@@ -18,6 +18,9 @@ import (
 type c07Case struct {
 	engine.Case
 	SameObject int `json:"same_object"` // 0: fresh parses; 1: filtered then full on one object; 2: full then filtered on one object
+	// ParentConfig, when set, is put on the global registry *before* filtering: the
+	// filtered registry must inherit it, so both runs see the same configuration.
+	ParentConfig *string `json:"parent_config,omitempty"`
 }
 
 func lintObj(k gen.Kind, der []byte) (func(r lint.Registry) *zlint.ResultSet, bool) {
@@ -35,8 +38,21 @@ func lintObj(k gen.Kind, der []byte) (func(r lint.Registry) *zlint.ResultSet, bo
 }
 
 func judgeC07(rec *stats.Rec, c c07Case) (string, string) {
+	if c.ParentConfig != nil {
+		g := lint.GlobalRegistry()
+		old := g.GetConfiguration()
+		defer g.SetConfiguration(old)
+		pc, err := lint.NewConfigFromString(*c.ParentConfig)
+		if err != nil {
+			rec.Class("void_config")
+			return "", ""
+		}
+		g.SetConfiguration(pc)
+	}
 	reg, _, restore, err := engine.BuildRegistry(c.Case)
-	defer restore()
+	if c.ParentConfig == nil {
+		defer restore()
+	}
 	if err != nil {
 		rec.Class("void_filter")
 		return "", ""
@@ -160,6 +176,35 @@ func TestC07(t *testing.T) {
 		}
 	}
 	rec.Exhaustive("every lint alone on its home objects (K per lint)", true)
+	// configuration set on the parent before filtering (inherited by the filtered registry)
+	sens := sensitiveObjects()
+	cis := engine.Configurables()
+	rapidRun(t, "inherited-config", perShard(stats.Scale(1500, 60000)), func(rt *rapid.T) {
+		ci := cis[rapid.IntRange(0, len(cis)-1).Draw(rt, "lint")]
+		ss := sens[ci.Name]
+		if len(ss) == 0 {
+			return
+		}
+		o := ss[rapid.IntRange(0, len(ss)-1).Draw(rt, "obj")]
+		doc := altDocs[ci.Name]
+		var f engine.FilterSpec
+		switch rapid.IntRange(0, 3).Draw(rt, "fshape") {
+		case 0:
+			f = engine.FilterSpec{IncludeNames: []string{ci.Name}}
+		case 1:
+			f = engine.FilterSpec{IncludeNames: []string{ci.Name, globalNames()[rapid.IntRange(0, len(globalNames())-1).Draw(rt, "other")]}}
+		case 2:
+			f = engine.FilterSpec{ExcludeNames: []string{"e_ca_country_name_missing"}}
+		default:
+			f = engine.DrawValidFilter(rt, globalNames())
+		}
+		c := c07Case{Case: engine.Case{Kind: o.Kind, DER: o.DER, Base: o.Name, Filters: []engine.FilterSpec{f}}, SameObject: rapid.IntRange(0, 2).Draw(rt, "same"), ParentConfig: &doc}
+		rec.Eval()
+		rec.Class("inherited_config")
+		if sig, msg := judgeC07(rec, c); msg != "" {
+			fail(rt, rec, "c07", sig, msg, c)
+		}
+	})
 	rapidRun(t, "random", perShard(stats.Scale(6000, 300000)), func(rt *rapid.T) {
 		ec := drawObject(rt, 3, true)
 		ec.Filters = []engine.FilterSpec{engine.DrawValidFilter(rt, globalNames())}
